@@ -18,6 +18,12 @@ P - C_od v, step-halving orders against scipy's adaptive integrator, boundedness
 large steps on damped systems, massless DOF (quasi-static rows); call sequences on ONE solver object (def_nonlin
 re-defined between solves with new / shared / in-place-modified transform arrays or a mutated dict): every phase must
 satisfy the documented equations for the definition in force, equal a fresh object, and leave caller arrays unchanged.
+
+Second extension: the whole tsolve (rf rows, m = None, the dictionary of nonlinear terms via the model's defNonlin /
+getNonlin, sol.z via zOut) goes through one model call (`mxf`, `zout`); cd-as-force accelerations (`cdfx`) and get_f2x
+(`f2x`) too; an EXACT stream on dyadic inputs (bit for bit, exactness decided by a rational evaluation); oracles for the
+explicit bounds of the convergence theorems, the orders of v and a, the initial-acceleration defect, modal superposition,
+get_f2x as step sensitivity, the 2-DOF stability test problem and callbacks with an rf partition.
 """
 import json
 import math
@@ -31,7 +37,9 @@ from runner import Infra
 
 ID = "C17"
 LEAN_MODULES = ["PyYetiVerif.Props.C17", "PyYetiVerif.Props.C17Conv", "PyYetiVerif.Props.C17Stab",
-                "PyYetiVerif.Props.C17Cdf", "PyYetiVerif.Audit.C17"]
+                "PyYetiVerif.Props.C17Cdf", "PyYetiVerif.Props.C17Vel", "PyYetiVerif.Props.C17Modal",
+                "PyYetiVerif.Props.C17Energy", "PyYetiVerif.Props.C17Nonlin", "PyYetiVerif.Props.C17Opt",
+                "PyYetiVerif.Props.C17CdfConv", "PyYetiVerif.Audit.C17"]
 AUDIT_FILE = "PyYetiVerif/Audit/C17.lean"
 THEOREMS = [
     "PyYetiVerif.C17." + n
@@ -46,7 +54,23 @@ THEOREMS = [
         "newmark_stable_full newmark_stable_modal massless_rows_quasistatic rf_rows_static "
         # Props/C17Cdf.lean: alpha and the meaning of one cd-as-force step
         "cdf_alpha_identity cdf_alpha_transpose_solve cdf_alpha_transposed_variant_differs "
-        "cdf_step_is_exact_for_interpolated_damping_force cdf_run_is_unc_with_damping_force"
+        "cdf_step_is_exact_for_interpolated_damping_force cdf_run_is_unc_with_damping_force "
+        # Props/C17Vel.lean: what v and a are (end points included) and how fast they converge
+        "newmark_velocity_is_central_difference convK_eq_convE newmark_velocity_converges_scalar "
+        "newmark_accel_converges_scalar newmark_initial_accel_error_scalar newmark_initial_accel_first_order "
+        "newmark_initial_accel_defect newmark_last_step_converges_scalar "
+        # Props/C17Modal.lean, Props/C17Energy.lean: convergence for coupled (full) matrices
+        "newmark_modal_decomposition newmark_converges_modal_full newmark_energy_stable_full "
+        "newmark_truncation_bound_full newmark_converges_energy_partial newmark_converges_energy "
+        "newmark_converges_energy_second_order "
+        # Props/C17Nonlin.lean: nonlinear terms, call sequences
+        "newmark_nonlin_is_documented nonlin_zero_is_linear nonlin_z_is_callback_output def_nonlin_call_sequence "
+        "def_nonlin_copies_at_call "
+        # Props/C17Opt.lean: options and entry points
+        "mNone_is_identity_mass mNone_scalar_coefficients rf_rows_static_full cdf_order0_is_order1_with_held_force "
+        "cdf_accel_eom cdf_f2x_is_step_sensitivity cdf_f2x_matrix "
+        # Props/C17CdfConv.lean: SolveCDF local error, error recursion, conditional convergence, 2-DOF stability
+        "cdf_run_is_sequence cdf_error_recursion cdf_converges_partial cdf_local_error cdf_stable_two_dof"
     ).split()
 ]
 TRUSTED = [
@@ -61,6 +85,11 @@ TRUSTED = [
     "the convergence theorems take the exact solution u as given, with four derivatives on the real line and bounds "
     "M3 >= |u(3)|, M4 >= |u(4)| on [0, T] (what f in C^2 provides); existence of u (Picard-Lindelof) is not proved",
     "step-halving reference: scipy.integrate.solve_ivp (DOP853, rtol 1e-11)",
+    "exact stream: Python fractions.Fraction re-evaluates the documented recurrence of one diagonal DOF operation by operation and "
+    "decides whether every intermediate value is a double; only then are implementation, Float model and rational history compared "
+    "bit for bit",
+    "the modal pair (Phi, Psi) of newmark_converges_modal_full and the constants mu, |M|, |B| of newmark_converges_energy are inputs "
+    "of the theorems (numpy computes them in the oracle)",
 ]
 RULE = (
     "a case is one (solver, m/b/k form [diag vector | diag matrix | full | m=None | singular mass | massless-undamped row], "
@@ -71,7 +100,9 @@ RULE = (
     "terms sharing one transform array / the same arrays overwritten in place / the caller's dict mutated / cleared, or "
     "only a new force and initial conditions), every phase compared with the model on the definition in force, with a "
     "fresh object, and for unchanged caller-owned arrays (m, b, k, force, d0, v0, T); cd-as-force objects are solved "
-    "three times; non-trivial = nt >= 3 (the "
+    "three times; exact cases: h a power of two, b and k multiples of 3, A a power of two, forces multiples of 3/8, nt <= 6 "
+    "(skipped and counted when the rational evaluation finds an intermediate value that is not a double); get_f2x cases: order 1, "
+    "random phi with 1-3 rows; nonlinear callbacks with one or two outputs; non-trivial = nt >= 3 (the "
     "loop runs) and the response is not identically zero; distinct by the full numeric input; branch histogram lists "
     "form, layout, rf, nonlinear kinds, massless, nt"
 )
@@ -83,23 +114,35 @@ ASSUMPTIONS = [
     "changing it WITHOUT calling def_nonlin again is not exercised (undocumented either way)",
     "nt >= 2 for SolveNewmark (nt = 1 raises IndexError in the code; modelled as an error, compared exactly)",
     "energy oracle: symmetric positive semidefinite M, K and B (Q^T diag Q with orthogonal Q), zero force",
+    "nonlinear terms together with an rf partition are exercised by four pinned cases with index-based callbacks (the docstring "
+    "advises against the combination); the oracle judges them by the documented start-up on the non-rf rows",
+    "proved-bound oracle: scalar systems with m in [0.5, 2], zeta <= 0.3, closed-form solution; h = T/50, T/200",
 ]
 PARTIAL = (
-    "partial: (1) global convergence is proved for the scalar test equation, hence DOF by DOF for diagonal (unc) systems "
-    "(newmark_converges_scalar: |d_n - u(t_n)| <= K1 |F(0) - K u0 - B v0| h + K2 h^2, every h > 0, explicit K1, K2; "
-    "second order iff the start-up is balanced) - for coupled (full) matrices only stability is proved "
-    "(newmark_stable_full, energy method, any symmetric psd M, K and any B with <Bx,x> >= 0) and the order is measured by "
-    "the step-halving correspondence/oracle; (2) the exact solution with four bounded derivatives is a hypothesis "
-    "(existence not proved), and only displacements are covered - the central-difference velocities/accelerations and "
-    "the systems with nonlinear terms have no convergence statement; (3) newmark_stable_modal takes the simultaneously "
-    "diagonalising pair (Phi, Psi) as given - the spectral theorem producing it from commuting M^-1 K, M^-1 B is not "
-    "proved (newmark_stable_full does not need it); for full matrices boundedness (energy non-increase) is proved, "
-    "strict decay is not; (4) SolveCDF: every step is proved to be SolveUnc's exact step for the force P - C_od v taken "
-    "linearly over the step (cdf_step_is_exact_for_interpolated_damping_force, cdf_run_is_unc_with_damping_force), so "
-    "its error IS the interpolation error of that force; that this error is O(h^2) and the global convergence to the "
-    "coupled solution are measured (step-halving), not proved; (5) the tie of the array-level matSys / alphaMat to the "
-    "linear maps of the theorems is the hypothesis 'solve inverts A' (measured by the correspondence); round-off is "
-    "outside the theorems"
+    "partial: (1) displacements of COUPLED systems now converge by proof in two ways: modally damped systems through the modal "
+    "transformation (newmark_modal_decomposition, newmark_converges_modal_full: error <= sum_i |Phi e_i| (K1_i |delta_i| h + K2_i h^2) with "
+    "the scalar constants; the diagonalising pair (Phi, Psi) is an INPUT - the spectral theorem producing it from symmetric "
+    "positive definite M, symmetric K and a damping diagonalised by the same modes is not proved), and ANY symmetric M >= mu^2 > 0, "
+    "symmetric K >= 0 and B with <Bx,x> >= 0 by the energy method (newmark_converges_energy: truncation and start-up bounds "
+    "discharged from four bounded derivatives, constants from mu, |M|, |B|; second order iff F(0) = K u0 + B v0); the velocities and "
+    "accelerations are proved for the scalar equation (newmark_velocity_converges_scalar, newmark_accel_converges_scalar, "
+    "newmark_last_step_converges_scalar, newmark_initial_accel_*: interior and last step keep the order of the displacements, "
+    "v_0 is exact, a_0 is first order when balanced and NOT consistent when unbalanced (a_0 -> u''(0)/3, newmark_initial_accel_defect), "
+    "a_1 does not converge when unbalanced) - for coupled matrices they follow mode by mode but are not stated; a singular mass "
+    "(massless rows) is outside the convergence theorems (mu > 0): stability and the quasi-static rows only; (2) the exact solution "
+    "with four bounded derivatives is a hypothesis (existence not proved); (3) nonlinear terms: the recurrence with the lagged N "
+    "is proved for arbitrary callbacks (newmark_nonlin_is_documented) and for arbitrary call sequences on one object "
+    "(def_nonlin_call_sequence); CONVERGENCE with nonlinear terms is not proved (the explicit term makes the scheme conditionally "
+    "stable) and not measured; with an rf partition the callbacks receive the full-size array at step 0 and the non-rf rows "
+    "afterwards - modelled as the code does, reported as a finding by the oracle; (4) SolveCDF: per-step force error O(h^2) "
+    "(cdf_local_error) and the error recursion (cdf_error_recursion) are proved, global second order only CONDITIONALLY "
+    "(cdf_converges_partial: hypotheses = a stability constant of the homogeneous step in some seminorm and one-step residuals "
+    "<= C h^3); that the O(h^2) force error gives an O(h^3) residual needs the Duhamel kernel of the exact uncoupled step (C01's "
+    "coefficients) and is NOT proved; stability of the lag is proved for the 2-DOF velocity test problem only "
+    "(cdf_stable_two_dof: stable iff |c| < b; its coefficient hypotheses are measured on get_su_coef's values) - otherwise the "
+    "step-halving streams measure it; (5) the tie of the array-level matSys / alphaMat / tsolveRf / cdfGetF2x to the linear maps of the "
+    "theorems is the hypothesis 'solve inverts A' (measured by the correspondence); the row scatter of tsolveRf has no theorem "
+    "beyond rf_rows_static_full; round-off is outside the theorems (exact where every operation is exact: the dyadic stream)"
 )
 MANIFEST = {
     "level_text": "Proof (Lean 4, kernel-checked, standard axioms only) about one polymorphic transcription of "
@@ -127,14 +170,37 @@ MANIFEST = {
     "damping it is SolveUnc's (`cdf_diag_eq_unc`). The same definitions run at Float and are compared with SolveNewmark / "
     "SolveCDF / SolveUnc(cd_as_force) histories (diag, full, C and Fortran layout, singular mass, massless undamped rows, "
     "rf, nonlinear callbacks, symmetric and non-symmetric coupled damping, alpha, step-halving triples, call sequences "
-    "on re-used solver objects with re-defined / in-place-modified nonlinear terms). Partial: "
-    "convergence for coupled matrices, of velocities/accelerations, with nonlinear terms, and of SolveCDF to the coupled "
-    "solution is measured (step-halving orders), not proved.",
+    "on re-used solver objects with re-defined / in-place-modified nonlinear terms). SECOND EXTENSION: what `v` and `a` "
+    "are, end points included - v_0 = v0, centred differences everywhere, the last step through the extrapolated De, no "
+    "one-sided formula (`newmark_velocity_is_central_difference`) - and their convergence for the scalar equation with explicit "
+    "constants (`newmark_velocity_converges_scalar`, `newmark_accel_converges_scalar`, `newmark_last_step_converges_scalar`, "
+    "`newmark_initial_accel_error_scalar`, `newmark_initial_accel_first_order`, `newmark_initial_accel_defect`: a_0 -> u''(0)/3 when "
+    "unbalanced); COUPLED convergence: the coupled run is Phi times the scalar runs (`newmark_modal_decomposition`) hence "
+    "`newmark_converges_modal_full`, and for any symmetric M >= mu^2, K >= 0, <Bx,x> >= 0 the energy method with forcing "
+    "(`newmark_energy_stable_full`), vector Taylor truncation bound (`newmark_truncation_bound_full`), "
+    "`newmark_converges_energy_partial` (consistency as hypotheses) and `newmark_converges_energy` / "
+    "`newmark_converges_energy_second_order` (hypotheses discharged from four bounded derivatives); nonlinear terms: `def_nonlin` "
+    "/ `_get_nonlin` / `sol.z` are in the model (`defNonlin`, `getNonlin`, `zOut`), `newmark_nonlin_is_documented` (N_{n+1} evaluated "
+    "explicitly on [u_{n+1}, ..., u_-1], pre-multiplication undone by A), `nonlin_zero_is_linear`, `nonlin_z_is_callback_output`, call "
+    "sequences on one object (`def_nonlin_call_sequence`, `def_nonlin_copies_at_call`: values at the time of the call, no cache by "
+    "object identity); options: `mNone_is_identity_mass`, `mNone_scalar_coefficients`, `rf_rows_static_full`, "
+    "`cdf_order0_is_order1_with_held_force`, `cdf_accel_eom` (full damping, with mass and m = None), `cdf_f2x_is_step_sensitivity`, "
+    "`cdf_f2x_matrix`; SolveCDF: `cdf_run_is_sequence`, `cdf_local_error` (force error <= (M_P + c_od M3) h^2 per step), "
+    "`cdf_error_recursion`, `cdf_converges_partial` (stability + O(h^3) residual => T e^{cT} C h^2), `cdf_stable_two_dof` (the lag is "
+    "stable iff the 2-DOF damping matrix is diagonally dominant). Tie added: the WHOLE tsolve on all rows incl. the rf partition, "
+    "m = None and the dictionary of nonlinear terms runs through the model (`tsolveRf`, `matSysOpt`, `defNonlin`); sol.z through `zOut`; "
+    "cd-as-force accelerations and get_f2x through the model; an EXACT stream: on dyadic inputs where no operation rounds "
+    "(decided by an independent rational evaluation) model, implementation and rational history agree bit for bit. Partial: "
+    "velocities/accelerations for coupled matrices not stated; convergence with nonlinear terms not proved; SolveCDF global "
+    "convergence conditional (stability constant and O(h^3) residual are hypotheses).",
     "level_note": "Trusted: Lean kernel; propext, Classical.choice, Quot.sound; the Python harness; LU solves modelled "
     "by their specification; get_su_coef coefficients taken from the solver (C01); the exact solution with four bounded "
     "derivatives is a hypothesis of the convergence theorems; round-off outside the theorems. Only tied / measured: the "
     "observed step-halving ratios (about 4 balanced, about 2 unbalanced; recorded for model and implementation), energy "
-    "non-increase and boundedness of the free response on the real code, SolveCDF orders.",
+    "non-increase and boundedness of the free response on the real code, SolveCDF orders; the explicit bounds of the convergence "
+    "theorems (d, v, a, end points) are evaluated on a closed-form problem and the real code's errors must lie below them; orders "
+    "of v and a; the modal superposition, get_f2x as step sensitivity and the 2-DOF amplification factors on the API; the coefficient "
+    "hypotheses of cdf_stable_two_dof on get_su_coef's values.",
     "technique": "Lean 4 proof (ring identities, Schur-Cohn via nlinarith, induction over the loop, discrete energy "
     "method, Taylor remainders via Mathlib's mean-value fencing lemma, inner-product-space energy for full matrices) on a "
     "polymorphic model + numeric differential correspondence with SolveNewmark/SolveCDF incl. step-halving triples + "
@@ -1344,6 +1410,10 @@ def correspondence(ctx):
         # solver objects re-used (call sequences on one object)
         "newmark-seq", "newmark-seq:fresh-arrays", "newmark-seq:shared-array", "newmark-seq:inplace", "newmark-seq:same-dict",
         "newmark-seq:tsolve-only", "newmark-seq:clear", "newmark-seq:tsolve-only-first", "cdf:reused-solver",
+        # second extension: exact (bitwise) dyadic stream, whole-tsolve model with the rf rows assembled, sol.z through the
+        # model's zOut, two-output callbacks, callbacks with an rf partition, cdf acceleration and get_f2x through the model
+        "newmark:exact-dyadic", "newmark:rf-assembled", "newmark:z-model", "newmark:nonlin-pair", "newmark:nonlin-with-rf",
+        "cdf:accel-model", "cdf:f2x-model",
     ])
 
 
